@@ -65,6 +65,8 @@ class Ctx:
         ob = dict(name=name, function=function, smt2=smt2, theory=theory,
                   model_vars=list(model_vars), replay=replay, probe=probe, kind=kind,
                   search=search, key=key or name, status="pending")
+        if probe:
+            ob["budget"] = 4.0       # a probe only has to survive: "unknown" is as good as a model
         self.obligations.append(ob)
         self.pending.append(ob)
         if function in self.functions and not probe:
